@@ -1,5 +1,5 @@
 (* C18 Timestamp operands denote the right instant *)
-From LD Require Import Base F32 Data Scan Semver Time Model Ops TimeSpec.
+From LD Require Import Base F32 Data Scan Semver Time Model Ops TimeSpec TimeFull.
 
 (* a rendered RFC 3339 UTC timestamp (years 0000-9999, T/t, Z/z, second 60 allowed) is parsed to the instant of its
    civil fields *)
@@ -52,3 +52,23 @@ Print Assumptions C18_non_timestamp_never_matches.
 Theorem C18_invalid_clause_value_never_matches : forall c cv i f, clause_time c i = None -> date_op c cv i f = false.
 Proof. exact invalid_clause_value_never_matches. Qed.
 Print Assumptions C18_invalid_clause_value_never_matches.
+
+(* ---- every RFC 3339 spelling ----
+   render_full writes year-month-day T/t hour:minute:second, an optional fraction of 1 to 9 digits, and Z/z or a numeric
+   offset +hh:mm / -hh:mm; instant is the instant it denotes (days_from_civil is the Gregorian day count, the offset is
+   subtracted, the fraction is scaled to nanoseconds). The scanner returns exactly that instant. *)
+Theorem C18_parse_render_full : forall y mo d h mi sec tl fs z,
+  (0 <= y <= 9999 -> 1 <= mo <= 12 -> 1 <= d <= 31 -> 0 <= h <= 23 -> 0 <= mi <= 59 -> 0 <= sec <= 60 ->
+   (tl = 84%N \/ tl = 116%N) -> Forall (fun x => 0 <= x <= 9) fs -> zlen fs <= 9 -> zone_ok z ->
+   parse_rfc3339 (render_full y mo d h mi sec tl fs z) = Some (instant y mo d h mi sec fs z))%Z.
+Proof. exact parse_render_full. Qed.
+Print Assumptions C18_parse_render_full.
+(* the same local time with an offset is the UTC instant shifted by that offset *)
+Theorem C18_offset_shifts_instant : forall y mo d h mi sec tl fs minus oh om,
+  (0 <= y <= 9999 -> 1 <= mo <= 12 -> 1 <= d <= 31 -> 0 <= h <= 23 -> 0 <= mi <= 59 -> 0 <= sec <= 60 ->
+   (tl = 84%N \/ tl = 116%N) -> Forall (fun x => 0 <= x <= 9) fs -> zlen fs <= 9 -> 0 <= oh <= 99 -> 0 <= om <= 59 ->
+   exists t0, parse_rfc3339 (render_full y mo d h mi sec tl fs (ZU 90%N)) = Some t0 /\
+              parse_rfc3339 (render_full y mo d h mi sec tl fs (ZOff minus oh om)) =
+              Some (t0 + (if minus then 1 else -1) * ((om + oh * 60) * 60) * 1000000000))%Z.
+Proof. exact offset_shifts_instant. Qed.
+Print Assumptions C18_offset_shifts_instant.
